@@ -125,6 +125,10 @@ def run(ctx):
                note="carving the request size (lockfree_pool.rs allocate_new_block, threadlocal_pool.rs HotArea): overlap after recycling under a neighbouring size")
     ctx.tlc_mc("MC_SizeClassPool", cfg="MC_SizeClassPool_wrap.cfg", expect="NoOverlap",
                note="offset counter advancing on refusals and wrapping (lockfree_pool.rs next_offset.fetch_add as u32)")
+    ctx.tlc_mc("MC_BumpArena", cfg="MC_BumpArena.cfg", required_actions=("Alloc", "ScopeEnd"),
+               note="bump pointer rounding the address, scopes and reset: NoOverlap, SizesOk, InBuffer, AlignOk")
+    ctx.tlc_mc("MC_BumpArena", cfg="MC_BumpArena_offset.cfg", expect="AlignOk",
+               note="rounding the offset on a base that is only 8-aligned (bump.rs alloc_bytes): misaligned blocks")
     # --- B2: all histories of length L
     beh, nbeh = ctx.tlc_generate("MC_AllocatorGen", cfg=_gen_cfg(ctx), timeout=1500, jvm="-Xmx8g")
     if nbeh == 0:
@@ -134,7 +138,7 @@ def run(ctx):
     excl = ",".join(reproduced)
     vlib.log("findings reproduced by their witness: %s" % (excl or "none"))
     # --- B2 executions and B1 random histories, trigger regions of reproduced findings left out
-    s2 = ctx.harness(BIN, "replay", "b2", extra={"in": beh, "exclude": excl or "none", "sample": 400 if ctx.thorough else 200,
+    s2 = ctx.harness(BIN, "replay", "b2", extra={"in": beh, "exclude": excl or "none", "sample": 400 if ctx.thorough else 250,
                                                   "max_mismatch": 60}, timeout=3000)
     s1 = ctx.harness(BIN, "drive", "b1", extra={"exclude": excl or "none"}, timeout=3000)
     b1files = sorted(glob.glob(os.path.join(s1["_out"], "*.ndjson")))
@@ -170,6 +174,11 @@ def run(ctx):
         if d.get("alloc_ok", 0) + b.get("alloc_ok", 0) == 0:
             vacuous.append(name)
     cov["b2_executions"] = b2_exec
+    # vacuity: the actions the property is about were exercised by the real code at all
+    tot = {k: sum((d.get(k) or 0) for d in s1.get("subjects", {}).values()) for k in ("alloc_ok", "frees", "touched")}
+    for k, v in tot.items():
+        if v == 0:
+            raise vlib.ToolError("vacuity: no subject ever performed '%s'" % k)
     cov["refusals"] = refusals
     cov["vacuous_subjects"] = vacuous
     cov["evaluations"] = cov["events_validated"] + b2_exec
@@ -184,7 +193,7 @@ def run(ctx):
                    "abstract sizes mapped to the pool's own size-class table; TLC validates a seeded sample of 1/%s of the executions per subject "
                    "plus every execution that differed from the values TLC computed (free must succeed, set of live blocks).  B1: seeded random "
                    "histories (mixed / churn around neighbouring classes / exhaustion), sizes around every class boundary of the pool's table."
-                   % ("5" if ctx.thorough else "4", "400" if ctx.thorough else "200"))
+                   % ("5" if ctx.thorough else "4", "400" if ctx.thorough else "250"))
     if b1files:
         ctx.sample_from_trace(b1files[0], 10)
     if b2files:
